@@ -586,10 +586,17 @@ def _check_edges(begin: sc.Variable, end: sc.Variable) -> None:
 
 
 def _check_edge_overlap(begin: sc.Variable, end: sc.Variable) -> None:
-    edges = sc.concat([begin.flatten(to='slit'), end.flatten(to='slit')], dim='edge')
+    # Slits live on a circle: compare begin angles modulo one turn so that slits
+    # that span top-dead-center (end > 360 deg or begin < 0) are handled, too.
+    full_turn = sc.scalar(360.0, unit='deg').to(unit=begin.unit)
+    width = (end - begin).flatten(to='slit')
+    begin = begin.flatten(to='slit') % full_turn
+    edges = sc.concat([begin, begin + width], dim='edge')
     edges = sc.sort(edges, key=edges['edge', 0])
     begin, end = edges['edge', 0], edges['edge', 1]
-    if sc.any(begin[1:] <= end[:-1]):
+    if sc.any(begin[1:] <= end[:-1]) or sc.any(
+        begin[:1] + full_turn < end[-1:]
+    ):
         raise ValueError('The chopper has overlapping slits.')
 
 
